@@ -1,5 +1,6 @@
 import Chess.Lemmas.Reach
 import Chess.Lemmas.Mate
+import Chess.Lemmas.Mate2
 
 /-!
 # C10 — forced mates within the horizon are found; dead positions are reported as such
@@ -9,9 +10,23 @@ from a fresh table a search to depth ≥ 3 (or unlimited) plays a mating move an
 at depth ≤ 3. Hypotheses of the mate theorem, both shown necessary by kernel-checked
 counterexamples in `Chess/Lemmas/Mate.lean`: `Bounded` (static evaluations stay out of the
 driver's mate range ±31767) and `HashSep` (no position with a legal move shares its hash with a
-mated child of the root; follows from the Zobrist hypothesis). Mate in two needs sound table
-entries two plies down and is decided by the independent solver on the implementation only
-(partial).
+mated child of the root; follows from the Zobrist hypothesis).
+
+MATE IN TWO (`Chess/Lemmas/Mate2*.lean`). What is TRUE depends on the table:
+* table off (the C09 hook): the full statement in its strong reading, for every game (C10.5);
+* table on, strong reading ("the move mates in two"): FALSE once a position can be reached at two
+  different distances from the root, even with an injective hash — mate scores are coded by
+  root distance and a stored one is reused elsewhere (`strong_reading_fails_with_transpositions`,
+  the generic-model form of what the implementation does on `8/8/8/5r2/8/4k1K1/8/5q2 b`);
+* table on, weak reading ("after the move the opponent cannot escape a forced mate"): proved for
+  games in which no position has more than three legal moves (`Narrow`: the null-window re-search
+  never happens), and — strong reading — for such games without transpositions between different
+  distances (`Graded`) (C10.6, C10.7); soundness of a reported mate score at every depth (C10.8).
+  For general games with the table on the weak statement is OPEN on the theorem side (the stored
+  entries are not inductively sound through the re-search: see the notes in `Mate2.lean`); there it
+  is decided on the implementation by the independent solver (`Chess/Spec/Mates.lean`), partial.
+  In all versions the mating move must survive the root's repetition filter (`m1 ∈ rootMoves`):
+  when it does not, the engine gives the mate up — the known finding of this property.
 -/
 namespace Chess.Props.C10
 open Chess Chess.Search
@@ -73,6 +88,62 @@ theorem mated_node_scores_exactly {o : Ops G M} {runs : Nat → Bool} {c : G} (h
       (pollSt st).tt[o.hash c]? = none :=
   mated_child_value hm remaining h2 a b rd st hr hnone
 
+open Chess.Search.Mate2 in
+/-- **C10.5 mate in two, table off: the full statement, strong reading, every game.** -/
+theorem mate_in_two_is_kept_table_off (o : Ops G M) (hb : Mate.Bounded o) (g : G) (m1 : M)
+    (hk : m1 ∈ rootMoves o g) (h2 : KeepsMate o g m1) (runs : Nat → Bool)
+    (hr : ∀ i, runs i = true) (md : Option Nat) (hmd : md = none ∨ ∃ N, md = some N ∧ 5 ≤ N) :
+    let out := driver o runs g {} true md
+    ∃ m, out.found = some m ∧ KeepsMate o g m ∧ out.stopped = false ∧ ∀ info ∈ out.infos, info.depth ≤ 5 :=
+  mate_in_two_found_off o hb g m1 hk h2 runs hr md hmd
+
+open Chess.Search.Mate2 in
+/-- **C10.6 mate in two, table on or off, weak reading, narrow games** (no position with more than
+three legal moves): the driver answers by depth 5 with a move after which the opponent cannot
+escape a forced mate, and stops by itself. `…_partial`: the full statement drops `Narrow`. -/
+theorem mate_in_two_is_kept_partial (o : Ops G M) (hb : Mate.Bounded o) (hn : Narrow o) (hs : HashSem o) (g : G)
+    (m1 : M) (h2 : ForcedMate2 o g m1) (hk : m1 ∈ rootMoves o g) (hno1 : ¬ MateIn1 o g)
+    (runs : Nat → Bool) (hr : ∀ i, runs i = true) (off : Bool) (md : Option Nat)
+    (hmd : md = none ∨ ∃ N, md = some N ∧ 5 ≤ N) :
+    let out := driver o runs g {} off md
+    ∃ m, out.found = some m ∧ KeepsForcedMate o g m ∧ out.stopped = false ∧ ∀ info ∈ out.infos, info.depth ≤ 5 :=
+  mate_in_two_found o hb hn hs g m1 h2 hk hno1 runs hr off md hmd
+
+open Chess.Search.Mate2 in
+/-- **C10.7 … and the strong reading** when positions determine their distance from the root
+(`Graded`) and the hash is injective. -/
+theorem mate_in_two_strong_partial (o : Ops G M) (hb : Mate.Bounded o) (hn : Narrow o) (g : G)
+    (hinj : ∀ x y, o.hash x = o.hash y → x = y) (lvl : G → Nat) (hg : Graded o g lvl)
+    (m1 : M) (h2 : ForcedMate2 o g m1) (hk : m1 ∈ rootMoves o g) (hno1 : ¬ MateIn1 o g)
+    (runs : Nat → Bool) (hr : ∀ i, runs i = true) (off : Bool) (md : Option Nat)
+    (hmd : md = none ∨ ∃ N, md = some N ∧ 5 ≤ N) :
+    let out := driver o runs g {} off md
+    ∃ m, out.found = some m ∧ KeepsMate o g m ∧ out.stopped = false ∧ ∀ info ∈ out.infos, info.depth ≤ 5 :=
+  mate_in_two_found_strong o hb hn g hinj lvl hg m1 h2 hk hno1 runs hr off md hmd
+
+open Chess.Search.Mate2 in
+/-- **C10.8 a reported mate score is sound at every depth** (narrow games): a final score above the
+evaluation range comes with a move that keeps a forced mate; one below it means the root is lost. -/
+theorem reported_mate_score_is_sound_partial (o : Ops G M) (hb : Mate.Bounded o) (hn : Narrow o) (hs : HashSem o) (g : G)
+    (hrep : rootMoves o g = o.checked g) (hl : 2 ≤ (o.checked g).length) (runs : Nat → Bool)
+    (hr : ∀ i, runs i = true) (off : Bool) (md : Option Nat) :
+    let out := driver o runs g {} off md
+    out.stopped = false ∧ ∀ info, out.infos.getLast? = some info →
+      (Mate.evalBound < info.score → ∃ m, out.found = some m ∧ KeepsForcedMate o g m) ∧
+      (info.score < -Mate.evalBound - 1 → Lose o g) :=
+  driver_mate_sound o hb hn hs g hrep hl runs hr off md
+
+open Chess.Search.Mate2 Chess.Search.Mate2.Example in
+/-- the strong reading fails with the table on as soon as a position is reachable at two distances
+from the root — a six-position game with an injective hash: the only move that mates in two is
+move 1, move 0 keeps a mate in three only, and no grading exists. (That the driver answers move 0
+there with the mate-in-two score is checked by evaluation, `#guard`, in `Mate2.lean`:
+`Std.HashMap` does not reduce in the kernel.) -/
+theorem strong_reading_fails_with_transpositions :
+    ForcedMate2 exT 0 1 ∧ (∀ m, KeepsMate exT 0 m → m = 1) ∧ ¬ KeepsMate exT 0 0 ∧
+      KeepsMateWithin exT 2 0 0 ∧ (∀ x y, exT.hash x = exT.hash y → x = y) ∧ ¬ ∃ lvl, Graded exT 0 lvl :=
+  ⟨exT_forced, exT_unique, exT_strong_fails, exT_move0, exT_inj, exT_not_graded⟩
+
 /-- chess instance of C10.2 -/
 example (g : Game) (h : (g.getMoves true).1 = []) :
     (driver Uci.chessOps (fun _ => true) g {} false none).found = none :=
@@ -85,3 +156,8 @@ end Chess.Props.C10
 #print axioms Chess.Props.C10.stops_by_itself
 #print axioms Chess.Props.C10.mate_in_one_is_played
 #print axioms Chess.Props.C10.mated_node_scores_exactly
+#print axioms Chess.Props.C10.mate_in_two_is_kept_table_off
+#print axioms Chess.Props.C10.mate_in_two_is_kept_partial
+#print axioms Chess.Props.C10.mate_in_two_strong_partial
+#print axioms Chess.Props.C10.reported_mate_score_is_sound_partial
+#print axioms Chess.Props.C10.strong_reading_fails_with_transpositions
